@@ -90,9 +90,16 @@ ESC_TEMPLATES = ['@{}x;', '@x{} y;', '@imp{}ort "x";', '@media all{{@x{} y;}}', 
                  '@media print and ({}color){{}}', '@page :{}first{{}}', '@page {}{{}}', '@page{{@top-{}left{{}}}}', '@namespace {}p "u";',
                  '@namespace p "{}";', '@font-face{{{}src:x}}', 'a{{b:c !{}important}}', 'a{{b:c !imp{}ortant}}', '@charset "{}";',
                  '@import url({}) {};', '@import "{}" {};', 'a{{b:calc(1p{}x + 2px)}}', 'a{{b:rgb({},1,2)}}', 'a{{b:U+{}}}', '/*{}*/',
-                 'a{{b:c}}{}', '{}']
+                 'a{{b:c}}{}', '{}',
+                 # escapes in the middle of a name next to the characters that split or join tokens of a selector / prelude
+                 'a{}b|*{{}}', 'a{}b|c{{}}', '*|a{}b{{}}', 'x:not(p{}q|*){{}}', '[a{}b|c]{{}}', '[a{}b|c=d]{{}}', 'a{}b.c{}d#e{}f{{}}',
+                 'a:b{}c(d{}e){{}}', '@media a{}b and (c{}d:e{}f){{}}', '@page a{}b:first{{}}', '@namespace a{}b "u";a{}b|c{{}}',
+                 'a{{b{}c:d{}e f{}g(h{}i)}}', '@a{}b c{}d;', '@import "x" a{}b;', 'a{{b:c !impor{}tant}}']
 ESCAPES = ['\\110000', '\\ffffff', '\\FFFFFF ', '\\0', '\\000000', '\\0 ', '\\d800', '\\dfff', '\\10ffff', '\\fffe', '\\1', '\\a',
-           '\\ ', '\\\n', '\\', '\\\\', '\\7f', '\\80', '\\x', '\\-', '\\"', '\\110000x', '\\999999 \\999999']
+           '\\ ', '\\\n', '\\', '\\\\', '\\7f', '\\80', '\\x', '\\-', '\\"', '\\110000x', '\\999999 \\999999',
+           # the characters that delimit tokens, as hex and as literal escapes: part of the name, never a delimiter
+           '\\7c ', '\\|', '\\7b ', '\\7d ', '\\3b ', '\\28 ', '\\29 ', '\\2a ', '\\*', '\\2c ', '\\3a ', '\\:', '\\2e ', '\\.',
+           '\\23 ', '\\#', '\\5b ', '\\5d ', '\\40 ', '\\21 ', '\\2f ', '\\22 ', '\\27 ', '\\5c ', '\\20 ', '\\3d ', '\\25 ']
 
 # constructs nested in themselves: (before, opening, closing, after)
 NESTED = [('a{x:', 'f(', ')', '}'), ('a{x:', 'f(1,', ')', '}'), ('a{x:', 'f(g(', '))', '}'), ('a{x:', 'calc(', ')', '}'),
